@@ -9,7 +9,8 @@ code-shaped broker model `Model/Broker.lean` for *all* broker states satisfying
 the representation invariant `BInv` (proved to hold initially and to be preserved
 by every `step`), all connection identifiers, packets and histories.
 -/
-import Mqtt.Proofs.BrokerQosInv
+import Mqtt.Proofs.BrokerQosFifo
+import Mqtt.Properties.C13
 
 namespace Mqtt.Properties.C02
 
@@ -229,5 +230,75 @@ example :
        [.send 2 (.pubcomp 5)], [.send 2 (.pubrel 3)]] ∧
     (sessOf (run demo evs).1 2).map (·.pub2in) = some [] := by
   decide
+
+/-! ## (f) the inbound QoS 2 list is the ack queue of Core C
+
+The broker model keeps `Pub2in` as a list with `q2Wait`/`q2Ack`/`q2Acked`.
+Under the projection `proj enc ackb` (request bytes `enc msg`, PUBREL bytes
+`ackb id`, no completion callback) these are `Fifo.register`, `Fifo.ackId` with
+a PUBREL and `Fifo.collect` of the FIFO specification — and `C13_refines` says
+the ring-based `Ackqueue` of `sessions/ackqueue.go` refines that specification.
+`States q` (entry states are 0 or PUBREL) is part of `BInv`. -/
+
+open Mqtt.Spec in
+/-- **(f), simulation.**  Each list operation is the FIFO specification's
+operation on the projected queue, and so is every history of them
+(`Fifo.run` on the interface operations `toOp`), outputs included. -/
+theorem C02_pub2in_is_fifo (enc : Pub → List UInt8) (ackb : Nat → List UInt8) (q : List QEntry)
+    (hq : States q) :
+    (∀ pg p, Fifo.register ⟨q.map (proj enc ackb), pg⟩ ⟨Fifo.PUBLISH, 0, p.pktid, enc p, [], 0⟩ =
+        ⟨(q2Wait q p).map (proj enc ackb), pg⟩) ∧
+    (∀ pg id, Fifo.ackId ⟨q.map (proj enc ackb), pg⟩ Fifo.PUBREL id (ackb id) =
+        ⟨(q2Ack q id).map (proj enc ackb), pg⟩) ∧
+    (∀ pg, Fifo.collect ⟨q.map (proj enc ackb), pg⟩ =
+        (⟨(q2Acked q).1.map (proj enc ackb), pg⟩, (q2Acked q).2.map (proj enc ackb))) ∧
+    (∀ ops : List QOp,
+      (Fifo.run ⟨q.map (proj enc ackb), none⟩ (ops.map (toOp enc ackb))).1 =
+        ⟨(qrun q ops).1.map (proj enc ackb), none⟩ ∧
+      (Fifo.run ⟨q.map (proj enc ackb), none⟩ (ops.map (toOp enc ackb))).2 =
+        (List.zip (qrun q ops).2 ops).map (fun x => qout enc ackb x.1 x.2) ∧
+      States (qrun q ops).1) :=
+  ⟨fun pg p => sim_register enc ackb q pg p, fun pg id => sim_ackId enc ackb q pg id,
+   fun pg => sim_collect enc ackb q hq pg, fun ops => sim_run enc ackb q hq ops⟩
+
+/-- what the broker does to the queue per packet is one `Wait`, resp. one `Ack`
+followed by `Acked`; and in every state satisfying the invariant the queues
+meet the side condition of the simulation -/
+theorem C02_pub2in_ops (b : B) (hI : BInv b) (r : Nat) (q : List QEntry) (p : Pub) (id : Nat) :
+    States (pub2inOf b r) ∧
+    (p.qos = 2 → newQ (.publish p) q = (qstep q (.wait p)).1) ∧
+    newQ (.pubrel id) q = (qstep (qstep q (.ack id)).1 .acked).1 ∧
+    (q2Acked (q2Ack q id)).2 = (qstep (qstep q (.ack id)).1 .acked).2 :=
+  ⟨(hI.queues r).states, fun h => by simp [newQ, qstep, h], rfl, rfl⟩
+
+open Mqtt.Model.AckQueue Mqtt.Proofs.AckQueue in
+/-- **(f), composed with C13.**  Starting from the queue a session creates, after
+any history of `Wait`(QoS 2 PUBLISH) / `Ack`(PUBREL) / `Acked` calls the
+abstraction of the ring-based ack queue *is* the projection of the list the
+broker model keeps, and every `Acked` hands back the projection of the entries
+the list releases. -/
+theorem C02_pub2in_is_ackqueue (enc : Pub → List UInt8) (ackb : Nat → List UInt8) (ops : List QOp) :
+    abs (Mqtt.Model.AckQueue.run init (ops.map (toOp enc ackb))).1 =
+      ⟨(qrun [] ops).1.map (proj enc ackb), none⟩ ∧
+    (Mqtt.Model.AckQueue.run init (ops.map (toOp enc ackb))).2.map C13.outAbs =
+      (List.zip (qrun [] ops).2 ops).map (fun x => qout enc ackb x.1 x.2) := by
+  obtain ⟨h1, h2⟩ := C13.C13_refines_init (ops.map (toOp enc ackb))
+  obtain ⟨s1, s2, _⟩ := sim_run enc ackb [] (by intro e he; cases he) ops
+  exact ⟨h1.trans s1, h2.trans s2⟩
+
+/-- the ring-based queue and the list side by side on a history with a repeated
+PUBLISH and out-of-order PUBRELs -/
+example :
+    let enc : Pub → List UInt8 := fun p => p.topic ++ p.payload
+    let ackb : Nat → List UInt8 := fun id => [0x62, 2, 0, id.toUInt8]
+    let p5 : Pub := { qos := 2, topic := [116], pktid := 5, payload := [1] }
+    let p5' : Pub := { dup := true, qos := 2, topic := [116], pktid := 5, payload := [2] }
+    let p6 : Pub := { qos := 2, topic := [116], pktid := 6, payload := [3] }
+    let ops : List QOp := [.wait p5, .wait p5', .wait p6, .ack 6, .acked, .ack 5, .acked]
+    (qrun [] ops).2 = [[], [], [], [], [], [], [⟨5, 6, p5⟩, ⟨6, 6, p6⟩]] ∧
+    (Mqtt.Model.AckQueue.run Mqtt.Model.AckQueue.init (ops.map (toOp enc ackb))).2.map C13.outAbs =
+      [.ok true, .ok true, .ok true, .ok true, .released [], .ok true,
+       .released [⟨3, 6, 5, [116, 1], [0x62, 2, 0, 5], 0⟩, ⟨3, 6, 6, [116, 3], [0x62, 2, 0, 6], 0⟩]] := by
+  decide +kernel
 
 end Mqtt.Properties.C02
